@@ -586,6 +586,7 @@ theorem latestKey_ns (cp tag : Bytes) : hasPrefix nsPrefix (Gen.latestKey cp tag
 def Bookkeeping.Valid : Bookkeeping → Prop
   | .frontierSave cp _ => Gen.checkpointKey <+: cp
   | .rootSet cp _ => Gen.checkpointKey <+: cp
+  | .rootHdel cp _ => Gen.checkpointKey <+: cp
   | .rootDel cp => Gen.checkpointKey <+: cp
   | _ => True
 
@@ -624,6 +625,8 @@ theorem bookkeeping_cmd_quiet (cfg : PCfg) (hf : FOK cfg.filter) (bk : Bookkeepi
     exact firstKey_quiet cfg hf _ checkpointHashKey [runId] (fk_hdel _) rfl (Or.inr hhash) pst hi
   | rootSet cp fields =>
     exact firstKey_quiet cfg hf _ cp fields (fk_hset _) rfl (Or.inr hv) pst hi
+  | rootHdel cp fields =>
+    exact firstKey_quiet cfg hf _ cp fields (fk_hdel _) rfl (Or.inr hv) pst hi
   | latestSeed cp tag fields =>
     exact firstKey_quiet cfg hf _ (Gen.latestKey cp tag) fields (fk_hset _) rfl (Or.inl (latestKey_ns cp tag)) pst hi
   | latestDel cp tag =>
